@@ -175,7 +175,7 @@ def units(tier):
     return u
 
 
-BUDGET = {"quick": 240, "thorough": 2400}
+BUDGET = {"quick": 240, "thorough": 1200}
 UNIT_PATH_CAP = {"quick": 300, "thorough": 20000}
 BOUNDS = {
     "quick": "catalogue S1 + maps (5 key kinds) + 10 S2 shapes, casing in {CAMEL, SNAKE}, classmethod and instance form of from_dict; values and sizes as C01; "
